@@ -111,32 +111,46 @@ theorem allSimple_complete {g : TGraph} {z : String} :
             · exact hdis x (List.mem_cons_of_mem _ hx) hm
           · simp at hlen ⊢; omega
 
-/-! ### the replacement loop -/
+/-! ### the replacement loop (either form of the replacement test: `>` or `>=`) -/
 
-def pickStep (res p : List String) : List String :=
-  if res.isEmpty || decide (res.length > p.length) then p else res
+def pickStep (strict : Bool) (res p : List String) : List String :=
+  if res.isEmpty || (if strict then decide (res.length > p.length) else decide (res.length ≥ p.length)) then p else res
 
-theorem pick_eq (hs : QueryIdioms.hopsReplaceStrict = true) (ps : List (List String)) :
-    pick ps = ps.foldl pickStep [] := by
-  unfold pick pickWith
-  rw [hs]; rfl
+theorem pick_eq (ps : List (List String)) : pick ps = ps.foldl (pickStep QueryIdioms.hopsReplaceStrict) [] := rfl
 
-theorem foldl_pickStep :
+theorem pickStep_taken {strict : Bool} {acc x : List String}
+    (hc : (acc.isEmpty || (if strict then decide (acc.length > x.length) else decide (acc.length ≥ x.length))) = true)
+    (hacc : acc ≠ []) : x.length ≤ acc.length := by
+  cases acc with
+  | nil => exact absurd rfl hacc
+  | cons a l =>
+    cases strict <;> simp at hc <;> simp <;> omega
+
+theorem pickStep_kept {strict : Bool} {acc x : List String}
+    (hc : ¬ (acc.isEmpty || (if strict then decide (acc.length > x.length) else decide (acc.length ≥ x.length))) = true) :
+    acc ≠ [] ∧ acc.length ≤ x.length := by
+  cases acc with
+  | nil => simp at hc
+  | cons a l =>
+    refine ⟨by simp, ?_⟩
+    cases strict <;> simp at hc <;> simp <;> omega
+
+theorem foldl_pickStep (strict : Bool) :
     ∀ (ps : List (List String)) (acc : List String), (∀ p ∈ ps, p ≠ []) →
-      let r := ps.foldl pickStep acc
+      let r := ps.foldl (pickStep strict) acc
       (r = acc ∨ r ∈ ps) ∧ (acc ≠ [] → r ≠ [] ∧ r.length ≤ acc.length) ∧ (∀ p ∈ ps, r ≠ [] ∧ r.length ≤ p.length)
   | [], acc, _ => by simp
   | x :: t, acc, hne => by
     intro r
     have hx : x ≠ [] := hne x (by simp)
     have ht : ∀ p ∈ t, p ≠ [] := fun p hp => hne p (List.mem_cons_of_mem _ hp)
-    have ih := foldl_pickStep t (pickStep acc x) ht
-    have hr : r = t.foldl pickStep (pickStep acc x) := rfl
+    have ih := foldl_pickStep strict t (pickStep strict acc x) ht
+    have hr : r = t.foldl (pickStep strict) (pickStep strict acc x) := rfl
     rw [← hr] at ih
     simp only at ih
     obtain ⟨h1, h2, h3⟩ := ih
-    by_cases hc : (acc.isEmpty || decide (acc.length > x.length)) = true
-    · have hs : pickStep acc x = x := by simp only [pickStep, hc, if_true]
+    by_cases hc : (acc.isEmpty || (if strict then decide (acc.length > x.length) else decide (acc.length ≥ x.length))) = true
+    · have hs : pickStep strict acc x = x := by simp only [pickStep, hc, if_true]
       rw [hs] at h1 h2
       obtain ⟨h2a, h2b⟩ := h2 hx
       refine ⟨?_, ?_, ?_⟩
@@ -145,21 +159,15 @@ theorem foldl_pickStep :
         · right; exact List.mem_cons_of_mem _ h
       · intro hacc
         refine ⟨h2a, ?_⟩
-        have : acc.length > x.length := by
-          cases acc with
-          | nil => exact absurd rfl hacc
-          | cons => simpa using hc
+        have := pickStep_taken hc hacc
         omega
       · intro p hp
         rcases List.mem_cons.1 hp with rfl | hp
         · exact ⟨h2a, h2b⟩
         · exact h3 p hp
-    · have hs : pickStep acc x = acc := by simp only [pickStep, hc]; rfl
+    · have hs : pickStep strict acc x = acc := by simp only [pickStep, hc]; rfl
       rw [hs] at h1 h2
-      have hacc : acc ≠ [] ∧ acc.length ≤ x.length := by
-        cases acc with
-        | nil => simp at hc
-        | cons a l => simp at hc; exact ⟨by simp, by simpa using hc⟩
+      have hacc := pickStep_kept hc
       obtain ⟨h2a, h2b⟩ := h2 hacc.1
       refine ⟨?_, fun _ => ⟨h2a, h2b⟩, ?_⟩
       · rcases h1 with h | h
@@ -171,10 +179,10 @@ theorem foldl_pickStep :
         · exact h3 p hp
 
 /-- `pick` returns `[]` on an empty enumeration and otherwise a member of minimal length -/
-theorem pick_spec (hs : QueryIdioms.hopsReplaceStrict = true) {ps : List (List String)} (hne : ∀ p ∈ ps, p ≠ []) :
+theorem pick_spec {ps : List (List String)} (hne : ∀ p ∈ ps, p ≠ []) :
     (ps = [] ∧ pick ps = []) ∨ (pick ps ∈ ps ∧ ∀ p ∈ ps, (pick ps).length ≤ p.length) := by
-  rw [pick_eq hs]
-  have h := foldl_pickStep ps [] hne
+  rw [pick_eq]
+  have h := foldl_pickStep QueryIdioms.hopsReplaceStrict ps [] hne
   simp only at h
   obtain ⟨h1, _, h3⟩ := h
   cases ps with
@@ -185,7 +193,6 @@ theorem pick_spec (hs : QueryIdioms.hopsReplaceStrict = true) {ps : List (List S
     rcases h1 with h | h
     · exact absurd h hx.1
     · exact ⟨h, fun p hp => (h3 p hp).2⟩
-
 /-! ### loop-freeness -/
 
 /-- no cycle in the subgraph induced by `p`: no repeated node, and every edge between two nodes of `p`
@@ -247,7 +254,7 @@ theorem hops_ok {g : TGraph} {a z : String} {hops : List String} {cutoff : Nat} 
     simp [h1, h2, h3, bind, Except.bind, pure, Except.pure] at h
   exact ⟨h2, h3, h.symm⟩
 
-theorem pathWithHops_spec (strict : QueryIdioms.hopsReplaceStrict = true) (g : TGraph) (a z : String) (hops : List String) (cutoff : Nat) :
+theorem pathWithHops_spec (g : TGraph) (a z : String) (hops : List String) (cutoff : Nat) :
     let p := pathWithHops g a z hops cutoff
     (p = [] ∧ ¬ ∃ q, HopPath g a z hops cutoff q) ∨
     (HopPath g a z hops cutoff p ∧ ∀ q, HopPath g a z hops cutoff q → p.length ≤ q.length) := by
@@ -256,7 +263,7 @@ theorem pathWithHops_spec (strict : QueryIdioms.hopsReplaceStrict = true) (g : T
     intro q hq he
     have := (mem_candidates.1 hq).1.1
     rw [he] at this; simp at this
-  rcases pick_spec strict hne with ⟨he, hp⟩ | ⟨hm, hmin⟩
+  rcases pick_spec hne with ⟨he, hp⟩ | ⟨hm, hmin⟩
   · left
     refine ⟨hp, ?_⟩
     rintro ⟨q, hq⟩
